@@ -465,7 +465,9 @@ fn unbounded_depth(t: &Tok) -> bool {
 /// text) is what wax turns into a zero term and then treats as transparent — widen it to `*`.
 pub fn widen_tail(e: &Expr) -> Expr {
     // `nested`: the concatenation is a branch / body; `rep_body`: it is the body of a repetition
-    fn go(e: &Expr, nested: bool, rep_body: bool) -> Expr {
+    // `unb`: some enclosing repetition has no upper bound (only then can a zero term be
+    // multiplied into 'unbounded depth')
+    fn go(e: &Expr, nested: bool, rep_body: bool, unb: bool) -> Expr {
         let mut out = e.clone();
         let mut i = e.len();
         while i > 0 {
@@ -473,9 +475,9 @@ pub fn widen_tail(e: &Expr) -> Expr {
             match &e[i] {
                 t if t.is_branch() => {
                     out[i] = match t {
-                        Tok::Alt(bs) => Tok::Alt(bs.iter().map(|b| go(b, true, false)).collect()),
+                        Tok::Alt(bs) => Tok::Alt(bs.iter().map(|b| go(b, true, false, unb)).collect()),
                         Tok::Rep { body, lo, hi, spell } => {
-                            Tok::Rep { body: go(body, true, true), lo: *lo, hi: *hi, spell: *spell }
+                            Tok::Rep { body: go(body, true, true, unb || hi.is_none()), lo: *lo, hi: *hi, spell: *spell }
                         },
                         _ => unreachable!(),
                     };
@@ -483,7 +485,7 @@ pub fn widen_tail(e: &Expr) -> Expr {
                         // a nested concatenation whose scan ends at a bounded branch without
                         // having seen unbounded depth yields a zero term, like one that ends at a
                         // bounded leaf
-                        if nested && i > 0 && !e[i..].iter().any(unbounded_depth) {
+                        if nested && unb && i > 0 && !e[i..].iter().any(unbounded_depth) {
                             return vec![Tok::Zom { lazy: false }];
                         }
                         // the scan stops after this branch.  In a repetition body whose scanned
@@ -501,7 +503,7 @@ pub fn widen_tail(e: &Expr) -> Expr {
                 _ => {
                     // bounded leaf: the scan stops here; unless the scanned part has unbounded
                     // depth, wax yields a zero term for this concatenation
-                    if nested && !e[i + 1..].iter().any(unbounded_depth) {
+                    if nested && unb && !e[i + 1..].iter().any(unbounded_depth) {
                         return vec![Tok::Zom { lazy: false }];
                     }
                     if rep_body && i + 1 < e.len() {
@@ -515,7 +517,7 @@ pub fn widen_tail(e: &Expr) -> Expr {
         }
         out
     }
-    go(e, false, false)
+    go(e, false, false, false)
 }
 
 /// F-EXH-MULTIPLE trigger: a repetition that may iterate more than once whose body can span two
